@@ -21,5 +21,5 @@ def run(c):
         "model_checking",
         rule="seeded random command schedules (dial/incoming/envDial/envUpgrade/failMux/close/disconnect/behClose/keepAlive/poll/poll1, 18-30 steps, <=4-6 connections, dial concurrency 1-3, deny probability 0/0.1/0.3) executed on a real Swarm; distinct = distinct schedules; non-trivial = the run contains at least one event the property talks about (a denial)",
         assumptions=["single-threaded deterministic polling (Config::without_executor) - thread interleavings inside one Swarm are not explored",
-                     "PuppetTransport/PuppetMuxer stand in for real transports"],
+                     "PuppetTransport/PuppetMuxer stand in for real transports in the puppet runs; the pair runs use MemoryTransport + plaintext + yamux"],
     )
